@@ -122,6 +122,7 @@ def run_tlc(
         "java",
         "-XX:+UseParallelGC",
         "-Xmx6g",
+        "-Xss256m",
         f"-DTLA-Library={lib}",
     ]
     cmd += java_opts or []
